@@ -88,7 +88,7 @@ package fscache
 //@   ensures !isTempName(result)                                                           # name: never-a-temporary-name   props: C14 C15
 //@   loop 0 invariant 0 <= i && len(encoded) - i >= 1 && b64Text(encoded)
 //@   loop 0 decreases len(encoded) - i                                                    # name: fragmenting-terminates   props: C14
-//@   loop 0 invariant forall j int :: 0 <= j && j < len(parts) ==> isDirName(parts[j]) && sepFree(parts[j]) && len(parts[j]) > 0
+//@   loop 0 invariant forall j int :: 0 <= j && j < len(parts) ==> isDirName(parts[j]) && sepFree(parts[j]) && len(parts[j]) > 0 && parts[j] != "." && parts[j] != ".."
 
 // AES-GCM encryptor (C17): Encrypt draws a fresh nonce from e.r on every call and returns
 // nonce || sealed(nonce, data); Decrypt succeeds only on input of that shape and returns the
